@@ -113,3 +113,49 @@ Definition un_row_ok (rx : bytes -> bytes -> option bool) (panel : list term) (r
 Record expr_case := { ec_ops : expr; ec_bind : bindings; ec_obs : obs term }.
 Definition expr_ok rx (c : expr_case) : bool :=
   obs_eqb term_seqb (to_obs (eval rx (ec_ops c) (ec_bind c))) (ec_obs c).
+
+(* ---------- Datalog programs (C05, C11a) ---------- *)
+From BV Require Import Datalog.
+
+Record dl_case := {
+  dc_facts : list pred; dc_rules : list rule; dc_limits : limits; dc_queries : list rule;
+  dc_obs_facts : list pred; dc_obs_err : option err; dc_obs_queries : list (list pred) }.
+
+Definition dl_ok rx (c : dl_case) : bool :=
+  let '(fs, e) := run rx (dc_limits c) (dc_rules c) (fold_left insert_fact (dc_facts c) []) in
+  list_eqb pred_seqb fs (dc_obs_facts c) && option_eqb err_eqb e (dc_obs_err c) &&
+  list_eqb (list_eqb pred_seqb) (map (fun q => query_rule rx q fs) (dc_queries c)) (dc_obs_queries c).
+
+(* ---------- authorizer histories (C02, C03, C04, C11, C12, C13) ---------- *)
+From BV Require Import Authz.
+
+Inductive aobs :=
+| AONone
+| AOVerdict (v : verdict) (world : list pred)   (* verdict and the world's facts afterwards, in order *)
+| AOQuery (r : obs (list pred)).
+
+Fixpoint atrace_full rx (tok : list block) (ops : list aop) (a : astate) : list aobs :=
+  match ops with
+  | [] => []
+  | o :: ops' =>
+      let a' := astep rx tok a o in
+      (match o with
+       | OAuthorize => AOVerdict (snd (authorize rx tok a)) (a_facts a')
+       | OQuery q => AOQuery (to_obs (snd (query rx a q)))
+       | _ => AONone
+       end) :: atrace_full rx tok ops' a'
+  end.
+
+Definition aobs_eqb (a b : aobs) : bool :=
+  match a, b with
+  | AONone, AONone => true
+  | AOVerdict v w, AOVerdict v' w' => verdict_eqb v v' && list_eqb pred_seqb w w'
+  | AOQuery r, AOQuery r' => obs_eqb (list_eqb pred_seqb) r r'
+  | _, _ => false
+  end.
+
+Record authz_case := {
+  az_token : list block; az_limits : limits; az_ops : list aop; az_obs : list aobs }.
+
+Definition authz_ok rx (c : authz_case) : bool :=
+  list_eqb aobs_eqb (atrace_full rx (az_token c) (az_ops c) (fresh (az_limits c))) (az_obs c).
